@@ -1,111 +1,5 @@
-import EkwVerif.Drive.Util
-import EkwVerif.Model.Ctrl
-open Lean EkwVerif.Drive EkwVerif.Ctrl
-
-/-- the interpretation of task bodies used by the driver: a term string -/
-def semStr : Sem := fun t k args => s!"t{t}.{k}(" ++ ",".intercalate args ++ ")"
-
-structure DState where
-  job : Job
-  cl : Cluster
-  sys : Sys
-
-def n (x : Nat) : Json := toJson x
-def jds (d : Ds) : Json := Json.arr #[n d.task, n d.out]
-def jw (w : Worker) : Json := Json.arr #[n w.host, n w.idx]
-def jstatus : Status → Json
-  | .missing => Json.str "missing"
-  | .preparing => Json.str "preparing"
-  | .available => Json.str "available"
-
-def pDs (j : Json) : Ds := match asArr j with | [a, b] => ⟨asNat a, asNat b⟩ | _ => ⟨0, 0⟩
-def pW (j : Json) : Worker := match asArr j with | [a, b] => ⟨asNat a, asNat b⟩ | _ => ⟨0, 0⟩
-
-def allDs (job : Job) : List Ds := job.taskIds.flatMap (fun t => job.outputsOf t)
-
-def jEvent : Event → Json
-  | .pubW w ds => Json.arr #[Json.str "pubW", n w.host, n w.idx, n ds.task, n ds.out]
-  | .pubT h ds => Json.arr #[Json.str "pubT", n h, n ds.task, n ds.out]
-  | .payload ds v => Json.arr #[Json.str "pay", n ds.task, n ds.out, Json.str v]
-
-def pEvent (j : Json) : Option Event :=
-  match asArr j with
-  | [Json.str "pubW", h, i, t, k] => some (.pubW ⟨asNat h, asNat i⟩ ⟨asNat t, asNat k⟩)
-  | [Json.str "pubT", h, t, k] => some (.pubT (asNat h) ⟨asNat t, asNat k⟩)
-  | [Json.str "pay", t, k, v] => some (.payload ⟨asNat t, asNat k⟩ (asStr v))
-  | _ => none
-
-def jCmd : Cmd → Json
-  | .transmit ds s t => Json.arr #[Json.str "transmit", n ds.task, n ds.out, n s, n t]
-  | .taskSeq w t => Json.arr #[Json.str "task", n w.host, n w.idx, n t]
-  | .fetch ds s => Json.arr #[Json.str "fetch", n ds.task, n ds.out, n s]
-  | .purge h ds => Json.arr #[Json.str "purge", n h, n ds.task, n ds.out]
-
-def jIO : IO → Json
-  | .transmit ds s t => Json.arr #[Json.str "transmit", n ds.task, n ds.out, n s, n t]
-  | .fetch ds s => Json.arr #[Json.str "fetch", n ds.task, n ds.out, n s]
-
-def digestCtl (job : Job) (cl : Cluster) (c : Ctl) : Json :=
-  let dss := allDs job
-  let hosts := cl.hosts
-  let ws := cl.ids
-  Json.mkObj [
-    ("computable", nats c.computable),
-    ("computableCnt", n c.computable.length),
-    ("idle", Json.arr (c.idle.map jw).toArray),
-    ("ongoing", Json.arr (c.ongoing.map (fun p => Json.arr #[n p.1.host, n p.1.idx, n p.2])).toArray),
-    ("ongoingTotal", n c.ongoing.length),
-    ("tracker", Json.arr ((job.taskIds.filter c.tracked).map (fun t => Json.arr #[n t, Json.arr ((c.tracker t).map jds).toArray])).toArray),
-    ("ptrack", Json.arr ((dss.filter c.ptracked).map (fun d => Json.arr #[jds d, nats (c.ptrack d)])).toArray),
-    ("purgeQ", Json.arr (c.purgeQ.map jds).toArray),
-    ("fetchQ", Json.arr (c.fetchQ.map (fun p => Json.arr #[n p.1.task, n p.1.out, n p.2])).toArray),
-    ("fetchIssued", Json.arr (c.fetchIssued.map jds).toArray),
-    ("outputs", Json.arr (job.ext.map (fun d => Json.arr #[n d.task, n d.out, optStr (c.outputs d)])).toArray),
-    ("hostDs", Json.arr ((hosts.flatMap (fun h => (dss.filter (fun d => c.hostDs h d != .missing)).map
-        (fun d => Json.arr #[n h, n d.task, n d.out, jstatus (c.hostDs h d)]))).toArray)),
-    ("dsHost", Json.arr ((hosts.flatMap (fun h => (dss.filter (fun d => c.dsHost d h != .missing)).map
-        (fun d => Json.arr #[n h, n d.task, n d.out, jstatus (c.dsHost d h)]))).toArray)),
-    ("workerDs", Json.arr ((ws.flatMap (fun w => (dss.filter (fun d => c.workerDs w d != .missing)).map
-        (fun d => Json.arr #[n w.host, n w.idx, n d.task, n d.out, jstatus (c.workerDs w d)]))).toArray)),
-    ("remaining", n c.remaining),
-    ("hasComputable", toJson c.hasComputable),
-    ("hasAwaitable", toJson (c.hasAwaitable job))]
-
-def digestEnv (job : Job) (cl : Cluster) (e : Env) : Json :=
-  let dss := allDs job
-  Json.mkObj [
-    ("present", Json.arr ((cl.hosts.flatMap (fun h => (dss.filterMap (fun d => (e.present h d).map
-        (fun v => Json.arr #[n h, n d.task, n d.out, Json.str v]))))).toArray)),
-    ("queued", Json.arr (e.queued.map (fun p => Json.arr #[n p.1.host, n p.1.idx, n p.2])).toArray),
-    ("outstanding", Json.arr (e.outstanding.map jIO).toArray),
-    ("pending", Json.arr (e.pending.map jEvent).toArray),
-    ("viol", strs e.viol)]
-
-def jPhase : Phase → String
-  | .top => "top" | .waiting => "waiting" | .finished => "finished" | .crashed => "crashed"
-  | .assigning => "assigning" | .planning => "planning" | .flushF => "flushF" | .flushP => "flushP"
-  | .notifying => "notifying"
-
-def full (d : DState) (extra : List (String × Json)) : Json :=
-  Json.mkObj (extra ++ [("ctl", digestCtl d.job d.cl d.sys.ctl), ("env", digestEnv d.job d.cl d.sys.env),
-    ("phase", Json.str (jPhase d.sys.phase)), ("err", optStr d.sys.err), ("shutdowns", n d.sys.shutdowns),
-    ("den", Json.arr (d.job.ext.map (fun ds => Json.arr #[n ds.task, n ds.out, optStr (den semStr d.job ds)])).toArray)])
-
-def pJob (j : Json) : Job :=
-  { tasks := (getArr j "tasks").map (fun t =>
-      { nOut := getNat t "nOut", gpu := getBool t "gpu", inputs := (getArr t "inputs").map pDs }),
-    ext := (getArr j "ext").map pDs }
-
-def pCluster (j : Json) : Cluster :=
-  { workers := (getArr j "workers").map (fun w => match asArr w with
-      | [h, i, g] => (⟨asNat h, asNat i⟩, (g.getBool?).toOption.getD false)
-      | _ => (⟨0, 0⟩, false)) }
-
-def pAsg (j : Json) : Asg :=
-  { worker := pW ((j.getObjVal? "w").toOption.getD Json.null), task := getNat j "t",
-    cands := (getArr j "cands").map (fun c => match asArr c with
-      | [t, k, h] => (⟨asNat t, asNat k⟩, asNat h)
-      | _ => (⟨0, 0⟩, 0)) }
+import EkwVerif.Drive.CtrlCommon
+open Lean EkwVerif.Drive EkwVerif.Ctrl EkwVerif.DriveCtrl
 
 def ctrlStep (d : DState) (j : Json) : DState × Json :=
   match getStr j "op" with
